@@ -695,27 +695,34 @@ def table_lookup(tab, idx, exc=IndexError):
 
 
 # --------------------------------------------------------------------------- proving
-_VARS = {}
+_VARS = {}          # ast id -> (ast kept alive, frozenset of variable / '@function' names); memoised per sub-term
+_EMPTY = frozenset()
 
 
 def _vars(e):
-    k = e.get_id()
-    r = _VARS.get(k)
-    if r is not None and r[0].eq(e): return r[1]
-    acc = set(); seen = set(); st = [e]
+    k0 = e.get_id()
+    r = _VARS.get(k0)
+    if r is not None: return r[1]
+    st = [(e, False)]
     while st:
-        x = st.pop()
-        i = x.get_id()
-        if i in seen: continue
-        seen.add(i)
+        x, done = st.pop()
+        k = x.get_id()
+        if k in _VARS: continue
         if z3.is_const(x):
-            if x.decl().kind() == z3.Z3_OP_UNINTERPRETED: acc.add(x.decl().name())
-        else:
-            if x.decl().kind() == z3.Z3_OP_UNINTERPRETED: acc.add('@' + x.decl().name())
-            st.extend(x.children())
-    acc = frozenset(acc)
-    _VARS[k] = (e, acc)
-    return acc
+            _VARS[k] = (x, frozenset([x.decl().name()]) if x.decl().kind() == z3.Z3_OP_UNINTERPRETED else _EMPTY)
+            continue
+        ch = x.children()
+        if not done:
+            st.append((x, True))
+            st.extend((c, False) for c in ch if c.get_id() not in _VARS)
+            continue
+        acc = set()
+        for c in ch: acc |= _VARS[c.get_id()][1]
+        if x.decl().kind() == z3.Z3_OP_UNINTERPRETED: acc.add('@' + x.decl().name())
+        _VARS[k] = (x, frozenset(acc))
+    if len(_VARS) > 2000000: 
+        keep = _VARS[k0]; _VARS.clear(); _VARS[k0] = keep
+    return _VARS[k0][1]
 
 
 _SLICE_IDX = {}
@@ -756,6 +763,7 @@ def model_values(ctx, m):
 
 
 _ALPHA = {}
+_TOK = re.compile(r'\|[^|]*\||[^\s()]+')
 
 
 def _query(cons, timeout_ms, stats, want_model=False):
@@ -765,18 +773,17 @@ def _query(cons, timeout_ms, stats, want_model=False):
     fns = [n[1:] for n in names if n.startswith('@')]
     key = None
     if not want_model:
-        order = []; seen = set(); st = [conj]
-        while st:
-            x = st.pop()
-            i = x.get_id()
-            if i in seen: continue
-            seen.add(i)
-            if z3.is_const(x):
-                if x.decl().kind() == z3.Z3_OP_UNINTERPRETED: order.append(x)
-            else:
-                st.extend(reversed(x.children()))
-        sub = [(v, (z3.Int if z3.is_int(v) else z3.Bool)('v!%d' % k)) for k, v in enumerate(order)]
-        key = (z3.substitute(conj, *sub) if sub else conj).sexpr()
+        vs = set(n for n in names if not n.startswith('@'))
+        order = {}
+        def rep(m):
+            t = m.group(0)
+            n = t[1:-1] if t[0] == '|' else t
+            if n in vs:
+                c = order.get(n)
+                if c is None: c = order[n] = 'v!%d' % len(order)
+                return c
+            return t
+        key = _TOK.sub(rep, conj.sexpr())
         r = _ALPHA.get(key)
         if r is not None:
             stats.alpha_hits = getattr(stats, 'alpha_hits', 0) + 1
